@@ -90,7 +90,26 @@ func basicTypes() []ty {
 	}
 }
 
+// userAsPackage is set by drawPkg while it draws a package that imports a package of the user's own named `as` -
+// the name gombok wants for its helper package github.com/csgura/fp/as (the generated file must then import the
+// helper under another name, and refer to it by that name everywhere).
+var userAsPackage bool
+
+// UserAsSource is the user's package scratch/as.
+const UserAsSource = "package as\n\n// Level is a type of the user's own package that happens to be called `as`\ntype Level int\n"
+
 func namedTypes() []ty {
+	if userAsPackage {
+		return append(namedTypesBase(), ty{expr: "as.Level", kind: "named", imports: []string{"scratch/as"}, jsonSafe: true, lit: func(t *rapid.T) string {
+			return "as.Level(" + intLit(t) + ")"
+		}}, ty{expr: "as.Level", kind: "named", imports: []string{"scratch/as"}, jsonSafe: true, lit: func(t *rapid.T) string {
+			return "as.Level(" + intLit(t) + ")"
+		}})
+	}
+	return namedTypesBase()
+}
+
+func namedTypesBase() []ty {
 	return []ty{
 		{expr: "time.Time", kind: "named", imports: []string{"time"}, jsonSafe: true, lit: func(t *rapid.T) string {
 			return fmt.Sprintf("time.Unix(%d, 0).UTC()", rapid.SampledFrom([]int{0, 1700000000, 86400}).Draw(t, "ts"))
@@ -484,7 +503,9 @@ func drawStruct(t *rapid.T, idx int, exclFragile map[string]bool, forceJson bool
 		nf = 8
 	}
 	plainWide := nf >= 22 && s.labelled && len(s.params) == 0 && rapid.Bool().Draw(t, "plainWide")
-	if forcePlainWide && !s.json && len(s.params) == 0 {
+	if forcePlainWide && s.value && !s.json && len(s.params) == 0 {
+		// (only together with @fp.Value: @fp.GenLabelled is documented for @fp.Value structs; with the explicit
+		// family alone the generated FromLabelled refers to Named types nobody declares - outside the grammar)
 		// the only struct of its package: more fields than the tuple limit, labelled, no field type from fp
 		nf = rapid.SampledFrom([]int{22, 23, 25}).Draw(t, "wideFields")
 		s.labelled, plainWide = true, true
@@ -787,6 +808,23 @@ func (s structSpec) annotations() []string {
 	return a
 }
 
+// usesUserAs: some field type comes from the user's package scratch/as
+func (p pkgSpec) usesUserAs() bool {
+	for _, s := range p.structs {
+		for _, f := range s.fields {
+			if strings.Contains(f.t.expr, "as.Level") {
+				return true
+			}
+		}
+		for _, tp := range s.params {
+			if strings.Contains(tp.inst.expr, "as.Level") {
+				return true
+			}
+		}
+	}
+	return false
+}
+
 // render the package source (types.go)
 func (p pkgSpec) source() string {
 	imports := map[string]bool{"errors": true}
@@ -1018,6 +1056,9 @@ func (p pkgSpec) cases(maxProduct int, gen string) string {
 		if d.pb {
 			pbImport = "\t\"scratch/pb\"\n"
 		}
+	}
+	if p.usesUserAs() {
+		pbImport += "\t\"scratch/as\"\n"
 	}
 	sb.WriteString("package pa\n\nimport (\n\t\"fmt\"\n\trf \"reflect\"\n\t\"time\"\n\t\"github.com/csgura/fp\"\n\t\"github.com/csgura/fp/option\"\n" + pbImport + ")\n\nvar _ = fmt.Sprint\nvar _ = time.Second\nvar _ fp.Unit\nvar _ = option.None[int]\nvar _ = rf.TypeOf\n\n")
 	up := func(n string) string { return strings.ToUpper(n[:1]) + n[1:] }
